@@ -265,7 +265,7 @@ theorem c06_fixup_classification_total (name : String) : classifyName name = spe
 
 /-- names that merely contain or resemble a fix-up name are ordinary functions -/
 theorem c06_lookalikes_are_plain :
-    ∀ n ∈ ["my_longjmp_helper", "setjmp_wrapper", "do_fork", "forkpty", "exec", "execute", "daemonize", "_longjmp",
+    ∀ n ∈ ["my_longjmp_helper", "setjmp_wrapper", "do_fork", "forkpty", "exec", "execute", "daemonize", "longjmp_",
            "longjmp_chk", "posix_fork", "vforked", "xsetjmp", "fexecve"], classifyName n = Fix.none := by decide
 
 example : classifyName "__longjmp_chk" = .longjmp ∧ classifyName "__sigsetjmp" = .setjmp ∧
